@@ -2,7 +2,10 @@
 
 package engine
 
-import "context"
+import (
+	"context"
+	"io"
+)
 
 // VerifHooks are instrumentation points used by an external verification harness.
 // They exist only with the build tag "verif" and are nil unless a harness sets them.
@@ -107,4 +110,23 @@ func VerifAtomTable() (atoms, names int) {
 	atomTable.RLock()
 	defer atomTable.RUnlock()
 	return len(atomTable.atoms), len(atomTable.names)
+}
+
+// VerifToken is a token as the lexer delivers it.
+type VerifToken struct {
+	Kind string // the name of the token kind, e.g. "letter digit", "open ct"
+	Val  string
+}
+
+// VerifTokens runs the lexer over r until its first error (io.EOF at the end of the input) and returns the tokens delivered.
+func VerifTokens(r io.RuneReader) ([]VerifToken, error) {
+	l := Lexer{input: newRuneRingBuffer(r)}
+	var out []VerifToken
+	for {
+		t, err := l.Token()
+		if err != nil {
+			return out, err
+		}
+		out = append(out, VerifToken{Kind: t.kind.String(), Val: t.val})
+	}
 }
